@@ -48,6 +48,8 @@ Definition reinit (t : utree) : res unit :=
   | Ok _ => Ok tt
   end.
 
+Definition err_few_tips : string := "cannot reroot on an outgroup a tree with less than 3 tips".
+
 (** the k-th proposal (modulo their number) of the NNI enumeration; none: nothing to do *)
 Definition nni_pick (k : nat) (t : utree) : option NNI.nni :=
   let l := NNI.nni_list t in
@@ -81,7 +83,11 @@ Definition run_op (o : op) (t : utree) : res utree :=
   match o with
   | OReroot i => reroot t i
   | OUnroot => Ok (unroot t)
-  | OOutgroup remove strict names => Outgroup.reroot_outgroup remove strict t names
+  | OOutgroup remove strict names =>
+    (* the guard added by the fix "RerootOutGroup dereferenced a nil pointer on a two-tip
+       tree": len(t.Tips()) < 3, before UnRoot (Tips() counts a root with one neighbour) *)
+    if Nat.ltb (length (tips t)) 3 then Err err_few_tips
+    else Outgroup.reroot_outgroup remove strict t names
   | OMidpoint => Outgroup.reroot_midpoint t
   | ORotate cs => Ok (fst (rotate_all t cs))
   | OSort => Ok (sort_by_tips t)
